@@ -102,6 +102,7 @@ def run_forked(M, argv, cwd, report_path, stdio_path, before_run=None, timeout=1
             except Exception:  # noqa
                 pass
             rep = {"status": status, "detail": detail}
+            os.environ["LIAN_SIM_RUN_STATUS"] = status
             if fin:
                 rep["report"] = fin()
             tmp = report_path + ".tmp"
